@@ -702,8 +702,9 @@ def _chan_receive_shape_ok():
 
 @fact("chan_local_close_order_ok", "bool", "false")
 def _chan_local_close_order_ok():
-    """ChannelFactory._local_close on a registered channel: error appended, _closed and _receiveclosed set BEFORE the ENDMARKER
-    is queued (a receiver that sees the ENDMARKER finds the error and the closed state), then unregistered"""
+    """ChannelFactory._local_close on a registered channel: error appended, unregistered (the callback gets its endmarker BEFORE
+    waitclose can return), _closed and _receiveclosed set BEFORE the ENDMARKER is queued (a receiver that sees the ENDMARKER
+    finds the error and the closed state)"""
     f = find("gateway_base.py", "ChannelFactory._local_close")
     body = _body_nodoc(f)
     if len(body) != 2 or _src(body[0]) != "channel = self._channels.get(id)" or not isinstance(body[1], ast.If) or _src(body[1].test) != "channel is None":
@@ -712,8 +713,8 @@ def _chan_local_close_order_ok():
     if "self._no_longer_opened(id)" not in gone or "channel." in gone:
         return "false"
     t = [_src(n) for n in body[1].orelse]
-    want = ["if remoteerror:\n    channel._remoteerrors.append(remoteerror)", "if not sendonly:\n    channel._closed = True", "channel._receiveclosed.set()",
-            "queue = channel._items", "if queue is not None:\n    queue.put(ENDMARKER)", "self._no_longer_opened(id)"]
+    want = ["if remoteerror:\n    channel._remoteerrors.append(remoteerror)", "queue = channel._items", "self._no_longer_opened(id)",
+            "if not sendonly:\n    channel._closed = True", "channel._receiveclosed.set()", "if queue is not None:\n    queue.put(ENDMARKER)"]
     if t != want:
         return "false"
     n = _src(find("gateway_base.py", "ChannelFactory._no_longer_opened"))
@@ -1408,13 +1409,28 @@ def _term_safe_terminate_ok():
     return "true" if all(x in t for x in need) else "false"
 
 
+@fact("term_loop_joins_pending", "bool", "false")
+def _term_loop_joins_pending():
+    """Group.terminate's loop also runs while only exit()ed-but-unjoined gateways are left (`self._gateways_to_join`)"""
+    f = find("multi.py", "Group.terminate")
+    ws = [n for n in f.body if isinstance(n, ast.While)]
+    if len(ws) != 1:
+        raise LookupError("terminate loop")
+    t = _src(ws[0].test)
+    if t == "self or self._gateways_to_join":
+        return "true"
+    if t == "self":
+        return "false"
+    raise LookupError("terminate loop condition " + t)
+
+
 @fact("term_terminate_ok", "bool", "false")
 def _term_terminate_ok():
     """Group.terminate: while members remain: exit every member that is nobody's via; join + wait resp. kill of the io
     for every exited member through safe_terminate; Gateway.exit unregisters first and swallows IO errors; the popen IO's
     kill/wait act on the child process"""
     t = _src(find("multi.py", "Group.terminate"))
-    need = ["while self:", "for gw in self:\n            if gw.spec.via:\n                vias.add(gw.spec.via)", "for gw in self:\n            if gw.id not in vias:\n                gw.exit()",
+    need = ["while self or self._gateways_to_join:", "for gw in self:\n            if gw.spec.via:\n                vias.add(gw.spec.via)", "for gw in self:\n            if gw.id not in vias:\n                gw.exit()",
             "def join_wait(gw: Gateway) -> None:\n            gw.join()\n            gw._io.wait()", "gw._io.kill()",
             "safe_terminate(self.execmodel, timeout, [(partial(join_wait, gw), partial(kill, gw)) for gw in self._gateways_to_join])", "self._gateways_to_join[:] = []"]
     ok = all(x in t for x in need)
